@@ -551,27 +551,37 @@ def _ccanon(s):
     return s.replace(" ", "").replace("&gt;", ">").replace("&lt;", "<").replace("&amp;", "&")
 
 
-def _flat(nodes, P, nested, expected):
+def _merge(items, kinds):
     out = []
-    for nd in nodes:
+    for nd in items:
+        if out and nd[0] in kinds and out[-1][0] == nd[0]:
+            out[-1] = (nd[0], out[-1][1] + nd[1])
+        else:
+            out.append(nd)
+    return out
+
+
+def _flat(nodes, P, nested, expected):
+    """canonical sibling list.  Expected side: directly adjacent strings are joined first (a CR LF pair may straddle
+    two strings; anything written with markup in between - reference, CDATA, comment - keeps them apart), then the
+    grammar's input normalisation is applied.  Both sides: references and (HTML5) CDATA sections count as text,
+    empty character data is dropped, adjacent character data is joined."""
+    out = []
+    for nd in (_merge(nodes, "T") if expected else nodes):
         k = nd[0]
         if k == "E":
             out.append(nd)
             continue
-        s = nd[1]
+        if expected:
+            s = P.norm(nd[1], {"T": "text", "R": "text", "D": "cdata", "C": "comment"}[k], nested)
+        else:
+            s = P.actual(nd[1])
         if k == "R" or (k == "D" and P.cdata_is_text):
             k = "T"
-        if expected:
-            s = P.norm(s, {"T": "text", "D": "cdata", "C": "comment"}[k], nested)
-        else:
-            s = P.actual(s)
         if k in "TD" and s == "":
             continue
-        if out and out[-1][0] == k and k in "TD":
-            out[-1] = (k, out[-1][1] + s)
-        else:
-            out.append((k, s))
-    return out
+        out.append((k, s))
+    return _merge(out, "TD")
 
 
 def _show(nodes):
